@@ -149,10 +149,11 @@ func (o *Observer) ObsGet(sc *cstate.StateContext, key datastore.Key, v util.MPT
 		}
 	}
 	if o.Shadow {
-		if prev, ok := o.lastRead[key]; ok && !bytes.Equal(prev, got) {
+		lk := key + "|" + tn // the same key may legitimately be decoded into different Go types
+		if prev, ok := o.lastRead[lk]; ok && !bytes.Equal(prev, got) {
 			o.Mismatches = append(o.Mismatches, CacheMismatch{Key: key, Type: tn, TxnHash: th, Kind: "alias-mutation", Cache: got, Trie: prev})
 		}
-		o.lastRead[key] = got
+		o.lastRead[lk] = got
 	}
 	if o.LogOps {
 		k := "get-trie"
@@ -175,7 +176,7 @@ func (o *Observer) ObsInsert(sc *cstate.StateContext, key datastore.Key, v util.
 	o.beginIfNew(th)
 	o.register(key, v)
 	o.InsByType[tn]++
-	delete(o.lastRead, key)
+	o.forget(key)
 	if o.LogOps {
 		o.Ops = append(o.Ops, Op{Kind: "insert", Key: key, Type: tn, TxnHash: th, Bytes: b})
 	}
@@ -193,7 +194,7 @@ func (o *Observer) ObsDelete(sc *cstate.StateContext, key datastore.Key) {
 	th := txnHash(sc)
 	o.beginIfNew(th)
 	o.register(key, nil)
-	delete(o.lastRead, key)
+	o.forget(key)
 	if o.LogOps {
 		o.Ops = append(o.Ops, Op{Kind: "delete", Key: key, TxnHash: th})
 	}
@@ -276,4 +277,12 @@ func (o *Observer) TypeHistogram() map[string]int {
 		}
 	}
 	return r
+}
+
+func (o *Observer) forget(key string) {
+	for k := range o.lastRead {
+		if len(k) > len(key) && k[:len(key)] == key && k[len(key)] == '|' {
+			delete(o.lastRead, k)
+		}
+	}
 }
